@@ -211,10 +211,13 @@ impl Color {
         let weight1 = (combined_weight1 + Number::one()) / Number(2.0);
         let weight2 = Number::one() - weight1;
 
+        // channels are integers: round the weighted sums like every other constructor does
+        let channel = |a: Number, b: Number| Number(fuzzy_round((a * weight1 + b * weight2).0));
+
         Color::from_rgba(
-            self.red() * weight1 + other.red() * weight2,
-            self.green() * weight1 + other.green() * weight2,
-            self.blue() * weight1 + other.blue() * weight2,
+            channel(self.red(), other.red()),
+            channel(self.green(), other.green()),
+            channel(self.blue(), other.blue()),
             self.alpha() * weight + other.alpha() * (Number::one() - weight),
         )
     }
